@@ -28,9 +28,11 @@ def rewrite(ty, rules, root):
     if ty[0] != "path": return ty
     _, lead, segs, args = ty
     args2 = [rewrite(a, rules, root) if a[0] != "lifetime" else a for a in args]
-    if not lead and segs[0] == root:
+    PRELUDE = {"Option": ["core", "option", "Option"], "Result": ["core", "result", "Result"], "BTreeMap": ["std", "collections", "BTreeMap"], "BTreeSet": ["std", "collections", "BTreeSet"],
+               "BinaryHeap": ["std", "collections", "BinaryHeap"], "Range": ["core", "ops", "Range"], "RangeInclusive": ["core", "ops", "RangeInclusive"]}
+    if (not lead and segs[0] == root) or (lead and any(len(r[0]) == 1 and PRELUDE.get(r[0][0]) == segs for r in rules)):
         for (spath, sparams, target, tparams_declared) in rules:
-            if segs[1:] == spath:
+            if (not lead and segs[1:] == spath) or (lead and len(spath) == 1 and PRELUDE.get(spath[0]) == segs):
                 tt = parse_type(P(tokenize(target)))
                 if not sparams and not tt[3]: return ("path", tt[1], tt[2], args2)          # pass-through
                 mapping = {n: (args2[i] if i < len(args2) else None) for i, n in enumerate(sparams)}
@@ -109,7 +111,9 @@ OTHER = {"enum": [("replay::corpus::basic::Tup", "::ext::Tup"), ("replay::corpus
          "reach": [("replay::corpus::reach::Foo<X>", "::ext::F<::alloc::vec::Vec<X>>"), ("replay::corpus::reach::A1", "::ext::A"), ("replay::corpus::reach::Inner", "::ext::I")],
          "cow_generic": [(G + "G<A>", "::ext::B<A>"), (G + "CowG<Z>", "::ext::C<Z>")],
          "mybox": [(G + "MyBox<T>", "::ext::MB<T>"), (G + "MyBox", "::ext::MB0")],
-         "calls": [("replay::corpus::calls::Call", "::ext::Call"), ("replay::corpus::basic::Tup", "::ext::T")]}
+         "calls": [("replay::corpus::calls::Call", "::ext::Call"), ("replay::corpus::basic::Tup", "::ext::T")],
+         "containers": [("Option<T>", "::my::Opt<T>"), ("Result<A, B>", "::my::Res<B, A>"), ("Option", "::my::Opt0")],
+         "collections": [("BTreeMap<K, V>", "::my::KeyedVec<K, V>"), ("BTreeSet", "::my::Set"), ("Range<I>", "::my::R<I, I>"), ("BinaryHeap<T>", "::my::Heap<::alloc::vec::Vec<T>>")]}
 
 def make_family(name, reg0, rule_list, how="subst"):
     ids = list(range(len(reg0)))
@@ -139,8 +143,25 @@ def make_family(name, reg0, rule_list, how="subst"):
         return {"outcome": "panic", "violations": [{"what": "panic: %s | rules %s" % (msg, rule_list), "case": replay_gen_case(reg0, sub), "cbase": None, "kind": "panic", "rules": rule_list}]}
     return Family(name, mk, run, target_prefixes=1, on_panic=on_panic)
 
+def generated_rules(reg):
+    """for every item path of the registry: a family of rule shapes fitted to its number of parameters"""
+    import c08
+    out = []
+    for p in c08.item_paths(reg):
+        t = next(t for t in reg if t["path"] == p); k = len([1 for _, x in t["params"] if x is not None]); src = "::".join(p)
+        names = ["A", "B", "C"][:k]
+        out.append((src, "::ext::N0"))
+        if k:
+            full = "%s<%s>" % (src, ", ".join(names))
+            out += [(full, "::ext::N1<%s>" % ", ".join(reversed(names))), (full, "::ext::N2<::w::W<%s>, ::core::primitive::u8>" % names[0]),
+                    (full, "::ext::N3<(%s, %s)>" % (names[0], names[-1]) if False else "::ext::N3<::w::T<(%s, %s)>>" % (names[0], names[-1])), (full, "::ext::N4"),
+                    ("%s<%s>" % (src, names[0]), "::ext::N5<%s, %s>" % (names[0], names[0])), ("%s<%s, Z>" % (src, ", ".join(names)), "::ext::N6<Z, %s>" % names[0])]
+    return out
 def families(eng, tier, seed):
     C = corpus(); fams = []
+    if tier == "thorough":
+        for n in ("generics", "modules", "reach", "calls", "cow_generic", "mybox", "enum", "compact_generic", "phantom", "tree", "bits_generic", "assoc_noskip"):
+            for k, r in enumerate(generated_rules(C[n])): fams.append(make_family("gen-rule-%s-%d" % (n, k), C[n], [r]))
     for k, (s, t) in enumerate(RULES): fams.append(make_family("rule-generics-%d" % k, C["generics"], [(s, t)]))
     for k in (0, 1, 7, 16): fams.append(make_family("rule-ifabsent-generics-%d" % k, C["generics"], [RULES[k]], how="subst_if_absent"))
     for k in (2, 8, 17): fams.append(make_family("rule-extend-generics-%d" % k, C["generics"], [RULES[k]], how="subst_extend"))
